@@ -272,6 +272,14 @@ func init() {
 		in.holdTimers = c.IsConst() && c.IsTrue()
 		return nil
 	}
+	// verifSimultaneousTimers(true): timers whose deadlines are provably equal fire together, so the goroutines they wake
+	// are runnable at the same time and their interleavings are explored. Off by default: two timers armed one after the
+	// other in the same virtual instant have distinct deadlines in reality and fire in creation order.
+	verifIntrinsics["verifSimultaneousTimers"] = func(in *Interp, th *Thread, fn *ssa.Function, args []Value) Value {
+		c := args[0].(*Term)
+		in.simulTimers = c.IsConst() && c.IsTrue()
+		return nil
+	}
 	verifIntrinsics["verifNow"] = func(in *Interp, th *Thread, fn *ssa.Function, args []Value) Value {
 		return in.clock()
 	}
